@@ -45,6 +45,7 @@ def check(ctx: Ctx):
     col.check_linked_data(ctx)
     col.check_order_free(ctx)
     col.check_copy_total(ctx)
+    col.check_self_alias_iteration(ctx)
     col.check_statistics(ctx)
     col.check_trajectory_axis(ctx)
     ctx.expect("STAT", 7)
@@ -67,6 +68,6 @@ def check(ctx: Ctx):
     ctx.expect("NONETEST", 3)
     ctx.expect("LINK", 1)
     ctx.expect("ORDERFREE", 2)
-    ctx.expect("ALIAS", 2)
+    ctx.expect("ALIAS", 3)
     ctx.trust("list.append/pop/slicing semantics; numpy record .copy() allocates new storage")
     ctx.assume("of the statistics clause only the *source* of the size statistics and of the total volume (every member's own radius/volume, plain mean/std/sum) is decided; bounding box, trajectories and numerical values are not")
